@@ -11,8 +11,9 @@ specification-side facts (`exec_sub_refLocal`, soundness of the executable decid
 lemma (`branches_cover`), the denotation of the printed type (`toTs_denotation`), and kernel-checked witnesses: the two
 defects of the pinned code that made C01 false (`merge_by_typename_counterexample` — §9-a, repaired in /repo 0bbdfa6 — and
 `alias_named_typename_counterexample` — §9-c, repaired in 72cec20), each paired with the proof that the repaired model
-admits the response, and `alias_equals_key_counterexample` (the statement is false outside the theorem's side condition on
-aliases — also of the real code).  What K/O still carry is listed in the block at the end.
+admits the response, and `alias_equals_key_counterexample` / `alias_equals_key_repaired_admits` (the defect the refinement
+proof itself found — an alias equal to the field's own name was typed apart from the unaliased selections of the field —
+repaired in /repo dda35cd).  What K/O still carry is listed in the block at the end.
 -/
 import NitroVerif.Lemmas.OpTypes
 import NitroVerif.Lemmas.OpTypesDen
@@ -243,8 +244,8 @@ open NitroVerif.OpTypes.Ref in
     declaration admits exactly the leaf's values and never `null` (C09/C10's subject), `__SelectionSet` has the prelude's
     reading, every composite type has a possible object type; `hnd` — type names are unique; `hC` — the document is
     coherent at every depth (occurrences collected under one response key for one object type agree on field name /
-    having a sub-selection — FieldsInSetCanMerge —, a field without sub-selection has a leaf type — Leaf Field Selections —,
-    and no alias coincides with an unaliased response key of the same set); `hf` — the fuel of the executable
+    having a sub-selection — FieldsInSetCanMerge —, a field without sub-selection has a leaf type — Leaf Field Selections);
+    `hf` — the fuel of the executable
     specification suffices (`FuelOk`: no fragment cycle within depth `D`, expanded size ≤ `c.fuel`); `hv` — the value has
     no repeated record keys (needed for ⊇ only).  Proof: fields (i) `fieldsFor` lists exactly the collected occurrences,
     (ii) branch cover, (iii) the merge lemma `mergeTrees_rel`, (iv) `toTs_denotation`, by induction on the model's fuel
@@ -311,8 +312,7 @@ example : Hyp W.ctx W.env Ref.W.r Ref.W.orig ∧ TypeNamesNodup W.ctx.S ∧
 
 open NitroVerif.OpTypes.Ref in
 /-- **The coherence hypothesis is decidable in practice**: the executable check `cohB` (for every possible object type:
-    occurrences listed when nothing is skipped agree pairwise per response key on aliased / field name / having a
-    sub-selection, fields without sub-selection have leaf types, recursively for the sub-selections grouped by response
+    occurrences listed when nothing is skipped agree pairwise per response key on field name / having a sub-selection, fields without sub-selection have leaf types, recursively for the sub-selections grouped by response
     key, down to the depth at which no selection is left) implies `∀ d, Coh c d {ss} n` for selection sets without fragment
     cycles (`fits`).  Together with `FuelOk` (a conjunction of two decidable facts) and `TypeNamesNodup`, all hypotheses of
     `impl_eq_refLocal` about the DOCUMENT are decidable; `Hyp` speaks about the schema declaration file. -/
@@ -324,31 +324,35 @@ open NitroVerif.OpTypes.Ref in
 /-- the check succeeds on the witness document -/
 example : W.selA.all (fits W.ctx.F 4) = true ∧ cohB W.ctx.S W.ctx.F 4 4 [W.selA] "Query" = true := by decide
 
-/-! ### why the side condition on aliases is there: the statement is FALSE without it -/
+/-! ### the defect the proof found: an alias equal to the field's own name (pre-repair), and the repaired partition -/
 
 open NitroVerif.OpTypes.Ref in
-/-- **Counterexample to C01 (model and real code) outside the side condition.** The spec-valid document
-    `query($v: Boolean!) { a: a @skip(if: $v) { x }  a { y } }` — an alias that coincides with an unaliased response key of
-    the same selection set: the printer puts the aliased field into `Others` and the unaliased one into `Obj` of one
-    `__SelectionSet`, so their sub-selections are never merged.  The emitted type is
+/-- **Counterexample to C01 on the code before dda35cd** (found by the refinement proof: the invariant needed "occurrences
+    under one response key are in one alias group", which the code violated).  The spec-valid document
+    `query($v: Boolean!) { a: a @skip(if: $v) { x }  a { y } }`: the pre-repair printer (`implTreeOld`) put EVERY aliased field
+    — also `a: a` — into `Others` and the unaliased `a` into `Obj` of one `__SelectionSet`, so the sub-selections were never
+    merged.  The emitted type was
     `__SelectionSet<Query, {a: {y}|null}, {a: {x}|null}> | __SelectionSet<Query, {a: {y}|null}, {a?: never}>`; the response
     `{ a: { y: "s" } }` that every spec-conformant server returns for v = true is NOT a member of it (the key `a` is typed
-    by an intersection with `never`, resp. with `{x} | null`).  The document violates the coherence hypothesis `hC` of
-    `impl_eq_refLocal` (last conjunct), which is exactly why that hypothesis contains "aliased = aliased". -/
+    by an intersection with `never`, resp. with `{x} | null`). -/
 theorem alias_equals_key_counterexample :
     Exec W.ctx (sigmaOf [("v", true)]) "Query" Cex.selAA Cex.resp ∧
-    ((implTree W.S W.noFrags 16 16 (.nonNull (.named "Query" {})) Cex.selAA).toOption.map
+    ((implTreeOld W.S W.noFrags 16 16 (.nonNull (.named "Query" {})) Cex.selAA).toOption.map
       fun t => W.close (toTs "Schema" t)) = some Cex.ty ∧
-    ¬ Mem W.env Cex.resp Cex.ty ∧
-    ¬ (∀ d, Coh W.ctx d (Sb1 Cex.selAA) "Query") := by
-  refine ⟨⟨3, execMem_sound _ _ 3 _ _ _ (by decide +kernel)⟩, Cex.tree_ty, Cex.resp_not_mem, ?_⟩
-  intro h
-  have h1 := h 1
-  simp only [Coh] at h1
-  obtain ⟨⟨hc, _⟩, _⟩ := h1 "Query" (by decide)
-  have := (hc ⟨"a", true, "a", some W.selX⟩ ⟨"a", false, "a", some Cex.selY⟩
-    (pu_sb1.2 (.field rfl)) (pu_sb1.2 (.tail (.field rfl))) rfl).1
-  cases this
+    ¬ Mem W.env Cex.resp Cex.ty :=
+  ⟨⟨3, execMem_sound _ _ 3 _ _ _ (by decide +kernel)⟩, Cex.tree_ty, Cex.resp_not_mem⟩
+
+open NitroVerif.OpTypes.Ref in
+/-- **The repaired partition (dda35cd) admits it**: a field is in the aliased group only if its alias differs from its
+    name, so `a: a { x }` and `a { y }` are merged under the key `a`; the emitted type is
+    `__SelectionSet<Query, {a: {x, y}|null}, {}> | __SelectionSet<Query, {a: {y}|null}, {}>`, the v = true response is a
+    member, and the document passes the coherence check of the refinement theorem (which therefore applies to it). -/
+theorem alias_equals_key_repaired_admits :
+    ((implTree W.S W.noFrags 16 16 (.nonNull (.named "Query" {})) Cex.selAA).toOption.map
+      fun t => W.close (toTs "Schema" t)) = some Cex.tyNew ∧
+    Mem W.env Cex.resp Cex.tyNew ∧
+    (Cex.selAA.all (fits W.ctx.F 4) = true ∧ cohB W.ctx.S W.ctx.F 4 4 [Cex.selAA] "Query" = true) :=
+  ⟨Cex.tree_tyNew, Cex.resp_mem_new, by decide⟩
 
 /-! ### the printer does not panic -/
 
@@ -360,7 +364,7 @@ open NitroVerif.OpTypes.Ref in
     (`@skip`/`@include` carry an `if` argument, a field exists on the object type or is `__typename`, the type of a field
     with a sub-selection is a composite type with defined members and the sub-selection is valid for its possible object
     types, spreads and type conditions are defined); `fitsS`: no fragment cycle within nesting depth `D`; `cohB`: the
-    coherence check (FieldsInSetCanMerge + Leaf Field Selections + no alias equal to an unaliased key);
+    coherence check (FieldsInSetCanMerge + Leaf Field Selections);
     fuels: `fuel ≥ 2·D + 2`, `mfuel ≥` the expanded size of the selection set and `≥ (K + 1)·(G + 1)` where `D ≤ K` and
     `G` bounds the list/non-null wrapper depth of the schema's field types. -/
 theorem impl_no_panic (c : Ctx) (mfuel fuel G K D d : Nat) (ty : GType) (ss : List Selection)
@@ -396,10 +400,9 @@ OPEN — carried by K/O only (nothing of the refinement statement itself)
     of a fragment once per spread, the code's walks enter it once; that `2·docSize + 4` / `docSize + 64` always suffice on
     valid documents (`D ≤ docSize + 1`, a walk of at most `docSize` steps, `(K + 1)·(G + 1) ≤ docSize + 64` — the last
     one is NOT true of schemas with very deep list types) is not proved; K never met `outOfFuel`.
-  * outside the side conditions the statement is FALSE (`alias_equals_key_counterexample`: an alias equal to an unaliased
-    response key of the same selection set — model AND real code; for ⊇: values with a repeated record key
-    (`C02.repeated_key_counterexample`); not kernel-checked: an interface without implementing object type, whose member type
-    `never` the reading of `__SelectionSet` turns into "key absent") — see design-notes/C01.md "Wave 3".
+  * ⊇ needs its value hypothesis (`C02.repeated_key_counterexample`: a record that lists a key twice); not kernel-checked:
+    an interface without implementing object type (its member type `never` is turned into "key absent" by the reading of
+    `__SelectionSet`; excluded by `Hyp.inhabited`) — see design-notes/C01.md "Wave 3".
 -/
 
 end NitroVerif.Props.C01
